@@ -9,16 +9,24 @@ EXTENDS MC_Loader
 Kind == [LdIn |-> "loaded.in", LdGet |-> "loaded.get", LgIn |-> "loading.in", LgGet |-> "loading.get",
          Join |-> "join", Joined |-> "joined", LgPop |-> "loading.pop", Pub |-> "loaded.set",
          DfLdIn |-> "loaded.in", DfLgIn |-> "loading.in", DfSet |-> "loading.set", DfGet |-> "loading.get",
-         DfStart |-> "start", MBegin |-> "begin", TBegin |-> "begin", RfClear |-> "loaded.clear", MTouch |-> "touch"]
+         DfStart |-> "start", MBegin |-> "begin", TBegin |-> "begin", RfClear |-> "loaded.clear", MTouch |-> "touch",
+         TLdIn |-> "tloaded.in", TLdGet |-> "tloaded.get", TLgIn |-> "tloading.in", TLgGet |-> "tloading.get", TJoin |-> "join", TJoined |-> "joined",
+         TLgPop |-> "tloading.pop", TPub |-> "tloaded.set", TDfLdIn |-> "tloaded.in", TDfLgIn |-> "tloading.in", TDfSet |-> "tloading.set",
+         TDfGet |-> "tloading.get", TDfStart |-> "start"]
 IsAccess(p) == pc[p] \in DOMAIN Kind
-IsLocal(p) == pc[p] \notin DOMAIN Kind /\ pc[p] \notin {"Done", "HDead", "DDead"}
+IsLocal(p) == pc[p] \notin DOMAIN Kind /\ pc[p] \notin {"Done", "HDead", "DDead", "THDead", "TDDead"}
 \* the argument the model's process would use at its current label
 ArgU(p) == CASE pc[p] \in {"LdIn", "LdGet", "LgIn", "LgGet", "LgPop"} -> u[p]
              [] pc[p] = "Pub" -> v[p]
              [] pc[p] = "MTouch" -> Prog[k[p]][2]
+             [] pc[p] \in {"TLdIn", "TLdGet", "TLgIn", "TLgGet", "TLgPop"} -> tu[p]
+             [] pc[p] = "TPub" -> tv[p]
+             [] pc[p] \in {"TDfLdIn", "TDfLgIn", "TDfSet", "TDfGet"} -> tw[p]
              [] pc[p] \in {"DfLdIn", "DfLgIn", "DfSet", "DfGet"} -> w[p]
              [] OTHER -> "-"
 ArgT(p) == CASE pc[p] \in {"Join", "Joined"} -> jt[p]
              [] pc[p] = "DfStart" -> st[p]
+             [] pc[p] \in {"TJoin", "TJoined"} -> tjt[p]
+             [] pc[p] = "TDfStart" -> tst[p]
              [] OTHER -> 0
 ====
